@@ -337,17 +337,19 @@ Theorem add_tree_refusal w ti p sti b deep e :
 Proof.
   intros H. unfold op_add_tree.
   destruct (get_tree w ti) as [t|] eqn:Gt; [|reflexivity]. destruct (get_tree w sti) as [st|] eqn:Gs; [|reflexivity].
-  destruct (typed t && negb (typed st)); [reflexivity|].
+  destruct (typed t && negb (typed st)); [reflexivity|]. cbv zeta.
   destruct (any_collides t p st (map rid (forest_of st))) eqn:AC; [reflexivity|].
   destruct (any_into_own_branch ti sti st (map rid (forest_of st)) p _) eqn:AO; [reflexivity|].
   set (dpo := match deep with Some x => Some x | None => Some true end) in *.
-  set (L := match b with BNone | BFalse => forest_of st | _ => rev (forest_of st) end).
-  assert (EL : match b with BNone | BFalse => map rid (forest_of st) | _ => rev (map rid (forest_of st)) end = map rid L)
-    by (unfold L; destruct b; try reflexivity; now rewrite map_rev).
+  set (jb := match b with BTrue => Some 0 | BIdx z => Some (py_index z _) | _ => None end).
+  set (b' := match jb with Some j => BIdx (Z.of_nat j) | None => b end).
+  set (L := match jb with Some _ => rev (forest_of st) | None => forest_of st end).
+  assert (EL : match jb with Some _ => rev (map rid (forest_of st)) | None => map rid (forest_of st) end = map rid L)
+    by (unfold L; destruct jb; [now rewrite map_rev|reflexivity]).
   rewrite EL.
   assert (Ws := WFw_tree w sti st H Gs).
-  assert (InL : forall x, In x L -> In x (forest_of st)) by (unfold L; intros x Hx; destruct b; try assumption; now apply in_rev).
-  assert (PL : Permutation L (forest_of st)) by (unfold L; destruct b; try reflexivity; symmetry; apply Permutation_rev).
+  assert (InL : forall x, In x L -> In x (forest_of st)) by (unfold L; intros x Hx; destruct jb; [now apply in_rev|assumption]).
+  assert (PL : Permutation L (forest_of st)) by (unfold L; destruct jb; [symmetry; apply Permutation_rev|reflexivity]).
   assert (F : Forall2 (safe ti p sti dpo w) (map rid L) (map rdid L)).
   { apply Forall2_map_same. intros x Hx. apply (safe_of_checks ti p sti dpo w t st (map rid (forest_of st)) x Gt Gs); try assumption.
     - apply Ws.
@@ -355,9 +357,9 @@ Proof.
     - apply in_map. now apply InL. }
   assert (N : NoDup (map rdid L)).
   { apply (Permutation_NoDup (Permutation_map rdid (Permutation_sym PL))). apply SU_top. apply Ws. }
-  destruct (add_nodes w ti p sti (map rid L) b dpo []) as [[r|e'] w'] eqn:EA; [discriminate|].
+  destruct (add_nodes w ti p sti (map rid L) b' dpo []) as [[r|e'] w'] eqn:EA; [discriminate|].
   cbn [fst snd]. intros X Le. injection X as ->.
-  assert (R := add_nodes_refusal ti p sti b dpo (map rid L) (map rdid L) w [] e H F N). rewrite EA in R. now apply R.
+  assert (R := add_nodes_refusal ti p sti b' dpo (map rid L) (map rdid L) w [] e H F N). rewrite EA in R. now apply R.
 Qed.
 
 (* ---- copy_to(add_self=False), Tree.copy_to ---- *)
